@@ -10,6 +10,8 @@ from engine.universe import scratch_root
 
 ALGOS = ["MD5", "SHA-1", "SHA-256", "SHA-384", "SHA-512"]
 BADALGOS = ["sha256", "SHA256", "SHA-224", "BLAKE2B", "MD-5", "dou_algo"]
+# further unsupported names, tried at creation only: fragments and joins of the accepted names, stray whitespace
+FRESH_BAD = ["SHA-25", "SHA", "MD", "5", "-", "", "SHA-256 ", " MD5", "MD5, SHA-1", "sha-256", "SHA-1\n"]
 NSS = ["https://ns.dataone.org/service/types/v2.0#SystemMetadata", "ns2"]
 D1, W1, A1, N1 = z3.Int("c_depth"), z3.Int("c_width"), z3.Int("c_algo"), z3.Int("c_ns")
 D2, W2, A2, N2 = z3.Int("r_depth"), z3.Int("r_width"), z3.Int("r_algo"), z3.Int("r_ns")
@@ -39,7 +41,7 @@ def domain(tier):
 
 
 def props_for(root, d, w, a, n, ed="int", ew="int", shape="all keys"):
-    algo = (ALGOS + BADALGOS)[a]
+    algo = (ALGOS + BADALGOS + FRESH_BAD)[a]
     p = dict(store_path=root, store_depth=enc(d, ed), store_width=enc(w, ew), store_algorithm=algo,
              store_metadata_namespace=NSS[n])
     if shape == "missing store_depth":
@@ -160,7 +162,7 @@ def run_pair(ps, M, shim, cache, native_root=None):
 
 def run_fresh(ps, M, shim, native_root=None):
     """creation on a fresh path: unsupported algorithm, or store directories without a configuration file"""
-    a2 = ps.choose(A2, 0, len(ALGOS) + len(BADALGOS))
+    a2 = ps.choose(A2, 0, len(ALGOS) + len(BADALGOS) + len(FRESH_BAD))
     stale = ps.decide(POP)       # reuse: True = data directories exist but no hashstore.yaml
     d2, w2 = ps.choose(D2, 1, 6), ps.choose(W2, 1, 5)
     bad = []
@@ -206,7 +208,7 @@ def run_fresh(ps, M, shim, native_root=None):
             if after != before:
                 bad.append(("refusal-created-or-modified-files", "tree changed"))
     rec = dict(create=("fresh path", "stale data directories" if stale else "nothing there"),
-               reopen=(d2, w2, (ALGOS + BADALGOS)[a2]), res=res, expect_ok=expect_ok, bad=bad)
+               reopen=(d2, w2, (ALGOS + BADALGOS + FRESH_BAD)[a2]), res=res, expect_ok=expect_ok, bad=bad)
     if bad:
         rec["vals"] = ps.model_values(ALLV)
     return rec
